@@ -151,8 +151,10 @@ def label_to_op(name, args):
         return "write %s" % hexs(d)
     if op == "seek":
         return "seek %d %d" % (d[0], k)
-    if op in ("readall", "close"):
+    if op in ("readall", "close", "size"):
         return op
+    if op == "read":
+        return "read %d" % k
     if op == "put":
         return "put %s %d %s" % (pstr(p), k, hexs(d))
     if op in ("get", "unlink", "dcreate", "fexists", "dexists"):
@@ -181,8 +183,12 @@ def rand_fs_exec(rng, nops):
                 ops.append("write " + d)
             elif y < 0.65:
                 ops.append("seek %d %d" % (rng.choice([0, 1, 2, 5, -1, -2]), rng.randint(0, 2)))
-            elif y < 0.88:
+            elif y < 0.80:
                 ops.append("readall")
+            elif y < 0.86:
+                ops.append("read %d" % rng.choice([0, 1, 2, 3, 7]))
+            elif y < 0.89:
+                ops.append("size")
             else:
                 ops.append("close")
                 hopen = False
